@@ -33,19 +33,20 @@ with run_sites (p : prog) (X : cm) {struct p} : res (list (path * Z) * value) :=
       end
   end.
 
-(** The conditions of the Conds visited (taken-branch semantics), in program order. *)
-Fixpoint gf_checks (g : gf) (x : cm) (args : value) {struct g} : list bool * value :=
+(** The conditions of the Conds visited (taken-branch semantics), in program
+    order, each with the address path at which the Cond sits. *)
+Fixpoint gf_checks (g : gf) (x : cm) (args : value) {struct g} : list (path * bool) * value :=
   match g with
   | GDist d => ([], match x with CLeaf v => v | _ => VNone end)
   | GFn body => run_checks (body args) x
   | GCond g1 g2 =>
       match cond_args args with
       | Ok (c, rest) =>
-          let '(l, r) := if c then gf_checks g1 x rest else gf_checks g2 x rest in (c :: l, r)
+          let '(l, r) := if c then gf_checks g1 x rest else gf_checks g2 x rest in (([], c) :: l, r)
       | Err _ => ([], VNone)
       end
   end
-with run_checks (p : prog) (X : cm) {struct p} : list bool * value :=
+with run_checks (p : prog) (X : cm) {struct p} : list (path * bool) * value :=
   match p with
   | Ret v => ([], v)
   | Fail e => ([], VNone)
@@ -55,7 +56,7 @@ with run_checks (p : prog) (X : cm) {struct p} : list bool * value :=
       | Some x =>
           let '(l, r) := gf_checks g x args in
           let '(l', v) := run_checks (k r) X in
-          (l ++ l', v)
+          (map (fun q => (a :: fst q, snd q)) l ++ l', v)
       end
   end.
 
